@@ -102,6 +102,7 @@ def cases(draw):
             'sender_name': draw(st.one_of(st.sampled_from(['snd', '_ext_', '_ext_x', 'x_ext_', '_x', 'ext_', 'a b']),
                                           st.text(min_size=0, max_size=6))),
             'finalize_first': draw(st.booleans()), 'eager_attempt': draw(st.integers(0, 3)) == 0,
+            'persistent': draw(st.booleans()),
             'shapes': shapes}
 
 
@@ -135,14 +136,17 @@ def execute(case):
             except Exception as err:
                 obs['sender'] = type(err).__name__
         kind = case['dest']
+        pkw = {'persistent': True} if case.get('persistent') else {}
+        if case.get('persistent'):
+            circuit.set_persistent_data(harness.DeepCopyDict())
         if kind == 'rec':
             dest, etype = rec, 'x'
         elif kind == 'input':
-            dest, etype = edzed.Input('dst', initdef='init'), 'put'
+            dest, etype = edzed.Input('dst', initdef='init', **pkw), 'put'
         elif kind == 'counter':
-            dest, etype = edzed.Counter('dst'), 'inc'
+            dest, etype = edzed.Counter('dst', **pkw), 'inc'
         else:
-            dest, etype = Toggle('dst'), 'go'
+            dest, etype = Toggle('dst', **pkw), 'go'
         orig = dest.event
 
         def spy(et, /, **data):
@@ -317,6 +321,8 @@ def execute(case):
             res.fail('C14.handler_result', f"{tag}: send() gave {a['out']}, destination state {a['state_after']}")
     res.nontrivial = True
     res.classes = [f"dest={case['dest']}", f"termination={case['termination']}"]
+    if case.get('persistent') and case['dest'] != 'rec':
+        res.classes.append('persistent destination')
     if any(sh['source'] is not None and sh['source'][0] == 'bad' for sh in case['shapes'][2:6]):
         res.classes.append('non-string source while running')
     if name.startswith('_') or name == '':
